@@ -3,9 +3,14 @@
 // models and oracles live in internal/model, which does not.
 package eng
 
-import "verif/internal/fw"
+import (
+	"verif/internal/engarith"
+	"verif/internal/fw"
+)
 
 // Registry maps engine names to implementations.
 var Registry = map[string]fw.Engine{}
 
 func register(name string, e fw.Engine) { Registry[name] = e }
+
+func init() { register("arith", engarith.Engine) }
